@@ -313,4 +313,15 @@ theorem C04_redelivered (st : St) (s : String) (mx mb : Nat) (strict : Bool) (wa
       Bool.or_eq_true, Bool.not_eq_true']
     exact ⟨⟨h2, h1⟩, h3⟩
 
+/-- **C04 (the pull is one step)**: `C04_exclusive` speaks about concurrent pullers because the model's
+    `pull` selects the candidates and records the attempt (the lease) in one step.  The source has
+    that shape: every transaction of `GetSubscriptionMessages.execute` that selects candidates also
+    applies the results (regenerated fact; two real pulls interleaved at every transaction boundary
+    are the run-time side of the same tie). -/
+theorem C04_pull_is_one_transaction :
+    (∀ x ∈ Extracted.pullTxShape, x = "with-apply") ∧ Extracted.pullTxShape ≠ [] := by
+  refine ⟨?_, ?_⟩
+  · intro x hx; simp [Extracted.pullTxShape] at hx; exact hx
+  · simp [Extracted.pullTxShape]
+
 end Mmmbbb
